@@ -349,6 +349,18 @@ func c14Run(c c14Case, st *vlib.Stats) string {
 			unflushed = false
 		}
 	}
+	if c.K%4 == 1 {
+		// a refused USE (a mistyped database name) before the failing statement: also a statement
+		// that returned an error - the session must go on as if it had not been issued
+		if err := eng.Exec("USE no_such_database"); err == nil {
+			return "USE of a database that does not exist returned no error"
+		} else if mk.IsPanic(err) {
+			return "USE of a database that does not exist: " + err.Error()
+		}
+		if err := eng.Exec("USE " + DBName); err != nil {
+			return "USE of the current database after a refused USE failed: " + err.Error()
+		}
+	}
 	if msg := CompareAll(eng, m, tr); msg != "" {
 		return "before the failing statement: " + msg
 	}
